@@ -1,8 +1,13 @@
 import IoraModel.Model.WsFrame
 /-
 Model of the per-session data path of `include/iora/network/websocket_server.hpp`:
-`onUpgradedData`, `handleFrame`, `handleDataFrame`, `sendText/sendBinary/sendPing/sendClose`.
+`onUpgradedData`, `handleFrame`, `handleDataFrame`, `sendText/sendBinary/sendPing/sendClose`, and of the upgrade
+boundary of `http_server.hpp` (the 101 response followed by the drain of the bytes that arrived with the request).
 One `Sess` is one entry of `_sessions` (plus "entry erased" = `alive = false`).
+
+Application callbacks run outside `_wsMutex` (pinned by `Gen.Ws.serverSkeleton`), so an application may SEND from
+inside them. What it sends there is part of the input: `Cbs` gives, per callback, the list of sends the application
+issues re-entrantly; they take effect at the point of the callback, before the handler continues.
 -/
 namespace Iora.Ws
 
@@ -14,6 +19,8 @@ inductive Ev where
   | onClose (code : Nat) (reason : Bytes)
   | onError
   | closeSession                      -- `closeSession(sid)`
+  | connected                         -- `_onConnect` (upgrade accepted)
+  | upgraded                          -- the `101 Switching Protocols` response handed to the transport
   deriving DecidableEq, Repr
 
 structure Sess where
@@ -24,6 +31,14 @@ structure Sess where
   closeSent : Bool := false
   deriving DecidableEq, Repr
 
+/-- what the application sends from inside each callback -/
+structure Cbs where
+  onText : List Send := []
+  onBinary : List Send := []
+  onClose : List Send := []
+  onError : List Send := []
+  deriving Repr
+
 def str (s : String) : Bytes := s.toUTF8.toList
 
 /-- mirrors `sendClose(sid, code, reason)`: flag under the lock (if the session exists), frame sent outside -/
@@ -33,70 +48,116 @@ def sendClose (s : Sess) (code : Nat) (reason : Bytes) : Sess × List Ev :=
 /-- erase the `_sessions` entry -/
 def erase (_s : Sess) : Sess := { alive := false }
 
+/-- mirrors `sendText/sendBinary` (and the locked part of `sendPing`): check-and-send is one `_wsMutex` critical section -/
+def appSend (s : Sess) (op : Nat) (pl : Bytes) : Sess × List Ev :=
+  if !s.alive || s.closeSent then (s, []) else (s, [.sent (serialize (mkFrame op true pl))])
+
+/-- mirrors `sendPing`: a payload that would not be a valid control frame is dropped before anything else -/
+def sendPing (s : Sess) (pl : Bytes) : Sess × List Ev :=
+  if pl.length > Gen.Ws.serverPingMax then (s, []) else appSend s 9 pl
+
+def sendStep (s : Sess) : Send → Sess × List Ev
+  | .text bs => appSend s 1 bs
+  | .binary bs => appSend s 2 bs
+  | .ping bs => sendPing s bs
+  | .close c r => sendClose s c r
+
+def runSends : Sess → List Send → Sess × List Ev
+  | s, [] => (s, [])
+  | s, a :: as =>
+    let (s1, e1) := sendStep s a
+    let (s2, e2) := runSends s1 as
+    (s2, e1 ++ e2)
+
+/-- invoke a callback: the callback event, then whatever the application sends from inside it -/
+def fire (s : Sess) (e : Ev) (script : List Send) : Sess × List Ev :=
+  let (s1, ev) := runSends s script
+  (s1, e :: ev)
+
+/-- a complete message is handed to the application (text only if valid UTF-8, else close 1007) -/
+def deliver (cb : Cbs) (s : Sess) (op : Nat) (pl : Bytes) : Sess × List Ev :=
+  if op = 1 then
+    if !isValidUtf8 pl then sendClose s 1007 (str "Invalid UTF-8")
+    else fire s (.text pl) cb.onText
+  else if op = 2 then fire s (.binary pl) cb.onBinary
+  else (s, [])
+
+/-- mirrors the failure sequence shared by the frame-level and the message-level size/protocol errors:
+`sendClose`, `_onError`, erase the session, `closeSession` -/
+def failSession (cb : Cbs) (s : Sess) (code : Nat) (reason : Bytes) : Sess × List Ev :=
+  let (s2, ev) := sendClose s code reason
+  let (s3, ev3) := fire s2 .onError cb.onError
+  (erase s3, ev ++ ev3 ++ [.closeSession])
+
+/-- the locked part of `handleDataFrame`: a start frame replaces the fragment buffer, a continuation frame appends -/
+def accumulate (s : Sess) (f : Frame) : Sess :=
+  if f.opcode = 1 || f.opcode = 2 then { s with fragOp := f.opcode, fragBuf := f.payload }
+  else if f.opcode = 0 then { s with fragBuf := s.fragBuf ++ f.payload }
+  else s
+
 /-- mirrors `handleDataFrame` -/
-def handleDataFrame (maxFrame : Nat) (s : Sess) (f : Frame) : Sess × List Ev :=
+def handleDataFrame (maxFrame : Nat) (cb : Cbs) (s : Sess) (f : Frame) : Sess × List Ev :=
   if !s.alive then (s, []) else
-  let isStart := f.opcode = 1 || f.opcode = 2
-  let s1 : Sess :=
-    if isStart then { s with fragOp := f.opcode, fragBuf := f.payload }
-    else if f.opcode = 0 then { s with fragBuf := s.fragBuf ++ f.payload }
-    else s
+  let s1 := accumulate s f
   if s1.fragBuf.length > maxFrame then
-    let (s2, ev) := sendClose s1 1009 (str "Message Too Big")
-    (s2, ev ++ [.onError])
+    failSession cb { s1 with fragBuf := [], fragOp := 0 } 1009 (str "Message Too Big")
   else if f.fin then
-    let op := s1.fragOp
-    let pl := s1.fragBuf
-    let s2 := { s1 with fragBuf := [], fragOp := 0 }
-    if op = 1 then
-      if !isValidUtf8 pl then sendClose s2 1007 (str "Invalid UTF-8")
-      else (s2, [.text pl])
-    else if op = 2 then (s2, [.binary pl])
-    else (s2, [])
+    deliver cb { s1 with fragBuf := [], fragOp := 0 } s1.fragOp s1.fragBuf
   else (s1, [])
 
 /-- mirrors `handleFrame` -/
-def handleFrame (maxFrame : Nat) (s : Sess) (f : Frame) : Sess × List Ev :=
-  if f.opcode = 1 || f.opcode = 2 || f.opcode = 0 then handleDataFrame maxFrame s f
+def handleFrame (maxFrame : Nat) (cb : Cbs) (s : Sess) (f : Frame) : Sess × List Ev :=
+  if f.opcode = 1 || f.opcode = 2 || f.opcode = 0 then handleDataFrame maxFrame cb s f
   else if f.opcode = 9 then (s, [.sent (serialize (mkFrame 10 true f.payload))])
   else if f.opcode = 10 then (s, [])
   else if f.opcode = 8 then
     let (code, reason) := closePayload f.payload
-    let echo : List Ev := if s.alive && !s.closeSent then [.sent (serialize (makeClose code reason))] else []
-    (erase s, echo ++ [.onClose code reason, .closeSession])
+    let doEcho := s.alive && !s.closeSent
+    let s1 : Sess := if doEcho then { s with closeSent := true } else s
+    let echo : List Ev := if doEcho then [.sent (serialize (makeClose code reason))] else []
+    let (s2, evc) := fire s1 (.onClose code reason) cb.onClose
+    (erase s2, echo ++ evc ++ [.closeSession])
   else
     let (s2, ev) := sendClose s 1002 (str "Unsupported opcode")
-    (s2, ev ++ [.onError])
+    let (s3, ev3) := fire s2 .onError cb.onError
+    (s3, ev ++ ev3)
 
 /-- the parse loop of `onUpgradedData` over the local buffer; returns the session, the events and the
 unconsumed remainder (`none` = the connection was failed and nothing is put back) -/
-def loop (maxFrame : Nat) : Nat → Sess → Bytes → Sess × List Ev × Option Bytes
+def loop (maxFrame : Nat) (cb : Cbs) : Nat → Sess → Bytes → Sess × List Ev × Option Bytes
   | 0, s, d => (s, [], some d)
   | fuel + 1, s, d =>
     if d.isEmpty then (s, [], some d) else
     match parse maxFrame d with
     | .incomplete => (s, [], some d)
     | .protocolError =>
-      let (s2, ev) := sendClose s 1002 (str "Protocol error")
-      (erase s2, ev ++ [.onError, .closeSession], none)
+      let (s2, ev) := failSession cb s 1002 (str "Protocol error")
+      (s2, ev, none)
     | .tooLarge =>
-      let (s2, ev) := sendClose s 1009 (str "Message Too Big")
-      (erase s2, ev ++ [.onError, .closeSession], none)
+      let (s2, ev) := failSession cb s 1009 (str "Message Too Big")
+      (s2, ev, none)
     | .frame f n =>
-      let (s1, ev1) := handleFrame maxFrame s f
-      let (s2, ev2, r) := loop maxFrame fuel s1 (d.drop n)
+      let (s1, ev1) := handleFrame maxFrame cb s f
+      let (s2, ev2, r) := loop maxFrame cb fuel s1 (d.drop n)
       (s2, ev1 ++ ev2, r)
 
 /-- mirrors `onUpgradedData(sid, data, len)` -/
-def onData (maxFrame : Nat) (s : Sess) (data : Bytes) : Sess × List Ev :=
+def onData (maxFrame : Nat) (cb : Cbs) (s : Sess) (data : Bytes) : Sess × List Ev :=
   if !s.alive then (s, []) else
   let local_ := s.buffer ++ data
-  let (s1, ev, r) := loop maxFrame (local_.length + 1) { s with buffer := [] } local_
+  let (s1, ev, r) := loop maxFrame cb (local_.length + 1) { s with buffer := [] } local_
   match r with
   | some rest => (if s1.alive then { s1 with buffer := rest } else s1, ev)
   | none => (s1, ev)
 
-/-- application-side operations -/
+/-- mirrors the upgrade boundary (`onUpgradeRequest` + `http_server.hpp` processHttpRequest): a fresh session entry,
+`_onConnect`, the 101 response, then the bytes that arrived in the same read(s) as the request are drained into
+`onUpgradedData` (only if there are any) -/
+def upgrade (maxFrame : Nat) (cb : Cbs) (trailing : Bytes) : Sess × List Ev :=
+  let (s1, ev) := if trailing.isEmpty then (({} : Sess), []) else onData maxFrame cb {} trailing
+  (s1, [.connected, .upgraded] ++ ev)
+
+/-- application-side operations on ONE connection (an upgrade starts a new connection: see `upgrade`) -/
 inductive AppOp where
   | sendText (bs : Bytes)
   | sendBinary (bs : Bytes)
@@ -105,22 +166,18 @@ inductive AppOp where
   | data (bs : Bytes)
   deriving Repr
 
-/-- mirrors `sendText/sendBinary/sendPing`: check-and-send is one `_wsMutex` critical section -/
-def appSend (s : Sess) (op : Nat) (pl : Bytes) : Sess × List Ev :=
-  if !s.alive || s.closeSent then (s, []) else (s, [.sent (serialize (mkFrame op true pl))])
+def step (maxFrame : Nat) (cb : Cbs) (s : Sess) : AppOp → Sess × List Ev
+  | .sendText bs => sendStep s (.text bs)
+  | .sendBinary bs => sendStep s (.binary bs)
+  | .sendPing bs => sendStep s (.ping bs)
+  | .sendClose c r => sendStep s (.close c r)
+  | .data bs => onData maxFrame cb s bs
 
-def step (maxFrame : Nat) (s : Sess) : AppOp → Sess × List Ev
-  | .sendText bs => appSend s 1 bs
-  | .sendBinary bs => appSend s 2 bs
-  | .sendPing bs => appSend s 9 bs
-  | .sendClose c r => sendClose s c r
-  | .data bs => onData maxFrame s bs
-
-def run (maxFrame : Nat) : Sess → List AppOp → Sess × List Ev
+def run (maxFrame : Nat) (cb : Cbs) : Sess → List AppOp → Sess × List Ev
   | s, [] => (s, [])
   | s, op :: ops =>
-    let (s1, e1) := step maxFrame s op
-    let (s2, e2) := run maxFrame s1 ops
+    let (s1, e1) := step maxFrame cb s op
+    let (s2, e2) := run maxFrame cb s1 ops
     (s2, e1 ++ e2)
 
 end Iora.Ws
